@@ -11,7 +11,8 @@ const char* vh_property = "C04";
 #define NB2 196         /* pairs over {A,C}, length 1..3 */
 #define NB3 216         /* triples over {A,C}, length 1..2 */
 #define NBX 5           /* larger sets: 12 x ~70 nucleotide, 12 x ~70 protein, 5 x 130, 3 x 61, 60 x ~25 */
-static uint64_t nbase(int tier) { (void)tier; return NB2 + NB3 + NBX; }
+#define NBM 4           /* protein sets in which single records consist of nucleotide letters only (the kind is a property of the whole input) */
+static uint64_t nbase(int tier) { (void)tier; return NB2 + NB3 + NBX + NBM; }
 
 static void base_build(uint64_t b, struct kx_set* s)
 {
@@ -30,6 +31,16 @@ static void base_build(uint64_t b, struct kx_set* s)
                 kx_set_add(s, buf, "two");
                 kx_nth_string(x / 36, "AC", 1, 2, buf);
                 kx_set_add(s, buf, "three");
+        }else if(b >= NB2 + NB3 + NBX){
+                static const char* M[NBM][4] = {
+                        {"GATTACAGAT", "GATLKWDELKWLL", "GATMKWDELKWLL", NULL},
+                        {"GATLKWDELKWLL", "GATMKWDELKWLL", "GATTACAGAT", NULL},
+                        {"GATTACA", "LKWDELKWGATTACA", "TACAGAT", "LKWDEIKWGATACA"},
+                        {"LKWDELKW", "ACGT", "LKWDEKW", NULL}};
+                int which = (int)(b - NB2 - NB3 - NBX), i;
+                for(i = 0; i < 4 && M[which][i]; i++){
+                        kx_set_addf(s, M[which][i], "mix%d", i);
+                }
         }else{
                 int which = (int)(b - NB2 - NB3), i;
                 int n = which < 2 ? 12 : (which == 2 ? 5 : (which == 3 ? 3 : 60));
